@@ -1239,4 +1239,66 @@ theorem timestamp_on_stored (cfg : DecCfg) (vs : List GoVal) (hw : wt cfg tHeade
   | _ => simp [encodeVal] at g3
 
 
+
+
+/-- Struct round trip in full: whatever the `omitempty` fields hold, the decoded field values are
+the NORMAL FORM of the stored ones (`normFields`): identical, except that an empty `omitempty`
+field comes back as the zero value. -/
+theorem rt_fields_norm (cfg : DecCfg) : ∀ (fs : Fields) (vs : List GoVal), okFields fs = true → keysDistinct fs = true →
+    wtFieldsLoose cfg fs vs = true →
+    ∃ es, encodeFields fs vs = some es ∧
+      (∀ k, keyAbsent k fs = true → mapLookup (.text k) es = none) ∧
+      (∀ pre, (∀ k, keyAbsent k fs = false → mapLookup (.text k) pre = none) →
+        decodeFields cfg fs (pre ++ es) = some (normFields fs vs))
+  | [], vs, _, _, hw => by
+    cases vs <;> simp [wtFieldsLoose] at hw
+    exact ⟨[], by simp [encodeFields], fun _ _ => rfl, fun pre _ => by simp [decodeFields, normFields]⟩
+  | (key, om, t) :: fs, vs, hok, hd, hw => by
+    cases vs with
+    | nil => simp [wtFieldsLoose] at hw
+    | cons v vs =>
+      simp only [okFields, Bool.and_eq_true] at hok
+      simp only [keysDistinct, Bool.and_eq_true] at hd
+      simp only [wtFieldsLoose, Bool.and_eq_true] at hw
+      obtain ⟨c, hc1, hc2⟩ := rt_val cfg t v hok.1.2 hw.1
+      obtain ⟨es, he1, he2, he3⟩ := rt_fields_norm cfg fs vs hok.2 hd.2 hw.2
+      by_cases hom : (om && v.isEmpty) = true
+      · refine ⟨es, by simp [encodeFields, hc1, he1, hom], ?_, ?_⟩
+        · intro k hk
+          simp only [keyAbsent, Bool.and_eq_true] at hk
+          exact he2 k hk.2
+        · intro pre hpre
+          apply (decodeFields_cons_some cfg key om t fs (pre ++ es) _).mpr
+          refine ⟨zeroVal t, normFields fs vs, by simp [normFields, hom], ?_, ?_⟩
+          · have h1 : mapLookup (.text key) pre = none := hpre key (by simp [keyAbsent])
+            rw [decodeKT, mapLookup_append_none _ _ _ h1, he2 key hd.1]
+          · exact he3 pre (fun k hk => hpre k ((keyAbsent_false_cons k key om t fs).mpr (Or.inr hk)))
+      · have hom' : (om && v.isEmpty) = false := by simpa using hom
+        refine ⟨(.text key, c) :: es, by simp [encodeFields, hc1, he1, hom'], ?_, ?_⟩
+        · intro k hk
+          simp only [keyAbsent, Bool.and_eq_true, Bool.not_eq_true'] at hk
+          rw [mapLookup_cons_text, hk.1]
+          exact he2 k hk.2
+        · intro pre hpre
+          apply (decodeFields_cons_some cfg key om t fs _ _).mpr
+          refine ⟨v, normFields fs vs, by simp [normFields, hom'], ?_, ?_⟩
+          · have h1 : mapLookup (.text key) pre = none := hpre key (by simp [keyAbsent])
+            rw [decodeKT, mapLookup_append_none _ _ _ h1, mapLookup_cons_text]
+            simp [hc2]
+          · have : pre ++ (Cbor.text key, c) :: es = (pre ++ [(Cbor.text key, c)]) ++ es := by simp
+            rw [this]
+            apply he3
+            intro k hk
+            have hk1 : mapLookup (.text k) pre = none :=
+              hpre k ((keyAbsent_false_cons k key om t fs).mpr (Or.inr hk))
+            apply mapLookup_append_single_none k key c pre hk1
+            cases hkk : key == k with
+            | false => rfl
+            | true =>
+              have : key = k := by simpa using hkk
+              subst this
+              rw [hd.1] at hk
+              cases hk
+
+
 end Juno.C07
